@@ -18,13 +18,15 @@ IDENTS = gp.IDS_COMMON + gp.IDS_ODD + [u'a1\u00e9', u'x\u0300\u03a9', u'a\u203f\
                                        u'\u3042\u3044', u'\ud55c\uae00', 'a_b', '__proto__', '$$', 'x0', u'a\u0301b',
                                        u'n\u0660', u'c\uff3f']
 NUMS = gp.NUMS_COMMON + gp.NUMS_ODD + ['0.0', '9e9', '1E-7', '0xdeadBEEF', '0777', '3.14159', '100', '.0', '0e0']
-STRS = gp.STRS_COMMON + gp.STRS_ODD + ['"\\u2028"', u'"\u00e9\u00e8"', "'\\\u2028'", '"\\\u2029x"', "'a\\\n\\\nb'",
+STRS = gp.STRS_COMMON + gp.STRS_ODD + ['"a\x0cb"', u"'\x85'", '"\x0b\x1c"', "'\x1d\\\n\x1e'", '"\\u2028"', u'"\u00e9\u00e8"', "'\\\u2028'", '"\\\u2029x"', "'a\\\n\\\nb'",
                                        '"\\x00"', "'\\uFFFF'", '"\\0"', u'"\\\u00e9"', '"\\ "']
 WS = [' ', '  ', '\t', '\x0b', '\x0c', u'\xa0', u'\ufeff', u'\u1680', u'\u2000', u'\u2003', u'\u200a', u'\u202f',
       u'\u205f', u'\u3000']
 LTS = ['\n', '\r', '\r\n', u'\u2028', u'\u2029']
 COMMENTS = ['/*c*/', '/**/', '/***/', '/* * / */', '/*\n*/', '/*a\r\nb\rc\u2028d*/', '//x\n', '//\r\n', u'//\u00e9\u2028',
-            '// /* \n', '/*//*/', '//*/\n', '/* " */', "/*'*/"]
+            '// /* \n', '/*//*/', '//*/\n', '/* " */', "/*'*/",
+            # characters that split lines for Python (str.splitlines) but are not ES5 line terminators
+            '/*a\x0cb*/', '/*\x0b*/', u'/*\x85*/', '/*\x1c\x1d\x1e*/', '//p\x0cq\n', u'//\x85\x1e\n', '/*\x0c\n\x0b*/']
 
 
 KW_SUFFIX = ['x', '_', '$', '1', 'Check', 's', u'\u00e9', 'of', 'In']
